@@ -262,6 +262,35 @@ def user_value(variant, stored, read_args, post, basename):
     return data
 
 
+def same_size_variant(data):
+    """other content of the same kind and size (a reprocessed product):
+    bytes of the same length, objects with the same structure, tables with
+    the same variables, shapes and dtypes - different values"""
+    if isinstance(data, bytes):
+        out = bytearray((b + 1) % 256 for b in data)
+        return bytes(0xef if b == 0xee else b for b in out)
+    if isinstance(data, dict) and "vars" in data and "dims" in data:
+        out = copy_content(data)
+        for v in out["vars"]:
+            packed = v["enc"] and "scale_factor" in v["enc"]
+            if v["dtype"].startswith("int") and not packed:
+                v["values"] = [x ^ 1 for x in v["values"]]
+            elif v["dtype"] == "bool":
+                v["values"] = [not x for x in v["values"]]
+        return out
+    if isinstance(data, bool):
+        return not data
+    if isinstance(data, int):
+        return data ^ 1
+    if isinstance(data, str):
+        return data.swapcase()
+    if isinstance(data, list):
+        return [same_size_variant(x) for x in data]
+    if isinstance(data, dict):
+        return {k: same_size_variant(v) for k, v in data.items()}
+    return data
+
+
 def user_converted(data):
     if isinstance(data, bytes):
         return data[::-1] + b"!"
